@@ -48,8 +48,15 @@ RouteTags(r) ==
     \cup (IF (\A c \in DOMAIN r.latA : \A i \in DOMAIN r.latA[c] : r.latA[c][i][1] # SENT /\ r.latA[c][i][2] # SENT) /\
              (Len(r.latA) # Len(r.latT) \/ \E c \in DOMAIN r.latA : Len(r.latA[c]) # Len(r.latT[c]) \/
               \E i \in DOMAIN r.latA[c] : r.latT[c][i][1] # r.latA[c][i][1] + r.kx \/ r.latT[c][i][2] # r.latA[c][i][2] + r.ky)
-          THEN {"translated-raw-route-differs"} ELSE {})
-    \cup (IF ~r.dispShape \/ r.dispDevE12 > 1000 THEN {"translated-displayed-route-differs"} ELSE {})
+          THEN {IF r.mode = 0 /\ r.buf > 0 /\ \E sh \in DOMAIN r.shapes : Len(r.shapes[sh]) # 4 \/ \E j \in DOMAIN r.shapes[sh] :
+                                     LET a == r.shapes[sh][j]  b == r.shapes[sh][(j % Len(r.shapes[sh])) + 1] IN a[1] # b[1] /\ a[2] # b[2]
+                THEN "translated-raw-route-differs:polyline:buffered-shape-with-slanted-sides" ELSE "translated-raw-route-differs"} ELSE {})
+    \cup (IF ~r.dispShape \/ r.dispDevE12 > 1000
+          THEN {IF r.mode = 1 /\ Len(r.latA) = Len(r.latT) /\ \A c \in DOMAIN r.latA : Len(r.latA[c]) = Len(r.latT[c]) /\
+                                      \A i \in DOMAIN r.latA[c] : r.latA[c][i][1] = SENT \/ (r.latT[c][i][1] = r.latA[c][i][1] + r.kx /\ r.latT[c][i][2] = r.latA[c][i][2] + r.ky)
+                THEN "translated-displayed-route-differs:orthogonal:same-raw-routes-nudged-differently"
+                ELSE IF r.mode = 0 /\ r.buf > 0 THEN "translated-displayed-route-differs:polyline:buffered-shapes"
+                ELSE "translated-displayed-route-differs"} ELSE {})
     \* (tagged apart: every connector whose cost changes has an end lying exactly on the boundary of a shape -- a point that is
     \*  neither inside nor outside, for which the orientation tests of the visibility code have no symmetric answer)
     \cup {LET CC == {c \in DOMAIN r.latA : Integral(r.latA[c]) /\ Integral(r.sym[t].lat[c]) /\ ~SameCost(r.latA[c], r.sym[t].lat[c], r.P)}
@@ -62,6 +69,12 @@ RouteTags(r) ==
               Restricted(c) == r.masks[c] # <<15, 15>>
           IN  IF \A c \in CC : EndOnBoundary(c) THEN <<"symmetry-changes-route-cost:an-end-lies-on-a-shape-boundary", r.sym[t].t>>
               ELSE IF \A c \in CC : Restricted(c) THEN <<"symmetry-changes-route-cost:direction-restricted-end", r.sym[t].t>>
+              \* (tagged apart: orthogonal routes, a symmetry that swaps the axes, same length, only the number of bends differs)
+              ELSE IF r.mode = 1 /\ r.sym[t].t \in {1, 3, 6, 7} /\
+                      \A c \in CC : LET ML(rt) == LET u == Unit(rt) IN
+                                                  LET RECURSIVE Sm(_) Sm(i) == IF i >= Len(u) THEN 0 ELSE Abs(u[i + 1][1] - u[i][1]) + Abs(u[i + 1][2] - u[i][2]) + Sm(i + 1) IN Sm(1)
+                                    IN  ML(r.latA[c]) = ML(r.sym[t].lat[c])
+                   THEN <<"symmetry-changes-route-cost:orthogonal:axes-swapped:only-the-bend-count-differs", r.sym[t].t>>
               ELSE <<"symmetry-changes-route-cost", r.sym[t].t>>
           : t \in {t \in DOMAIN r.sym : ~r.sym[t].thrown /\
               \E c \in DOMAIN r.latA : Integral(r.latA[c]) /\ Integral(r.sym[t].lat[c]) /\ ~SameCost(r.latA[c], r.sym[t].lat[c], r.P)}}
